@@ -19,6 +19,14 @@ def install(interp):
     from .interp import ExtType, Namespace
     from . import models
 
+    class CallableType(ExtType):
+        def __init__(self, name, ctor, bases=()):
+            super().__init__(name, bases)
+            self.ctor = ctor
+
+        def __call__(self, *a, **k):
+            return self.ctor(*a, **k)
+
     E = ExtType
 
     def unary(name):
@@ -155,7 +163,19 @@ def install(interp):
                 key = z3.Real(f"sum_last[{x.name}]") if x.dtype == "float" else z3.Int(f"sum_last[{x.name}]")
                 x._sum_const = key
             return T(key, x.dtype if x.dtype != "bool" else "int", None, None, x.eshape)
+        if isinstance(x, T) and x.tlen is not None and x.taxis == "first" and dim == 0 and isinstance(x.tlen, int):
+            tot = None
+            for i in range(x.tlen):
+                v = tz.coerce(x.f(z3.IntVal(i)), "float" if x.dtype == "float" else "int")
+                tot = v if tot is None else tot + v
+            return T(tot if tot is not None else z3.RealVal(0), x.dtype if x.dtype != "bool" else "int", None, None, x.eshape)
         raise Unsupported("torch.sum over a non-adaptation axis")
+
+    def t_mean(x, dim=None, **kw):
+        if isinstance(x, T) and x.tlen is not None and x.taxis == "first" and dim == 0 and isinstance(x.tlen, int) and x.tlen > 0:
+            sm = t_sum(x, 0)
+            return T(tz.coerce(sm.f, "float") / x.tlen, "float", None, None, x.eshape)
+        raise Unsupported("torch.mean over this axis")
 
     def t_no_grad():
         raise Unsupported("torch.no_grad() outside a with statement")
@@ -174,7 +194,7 @@ def install(interp):
         mul=lambda a, b: a * b, add=lambda a, b: a + b, sub=lambda a, b: a - b, div=lambda a, b: a / b,
         pow=lambda a, b: a ** b,
         Tensor=E("torch.Tensor"), Size=E("torch.Size"), dtype=E("torch.dtype"), device=E("torch.device"), Generator=E("torch.Generator"),
-        no_grad=t_no_grad, sum=t_sum,
+        no_grad=t_no_grad, sum=t_sum, mean=t_mean,
         pi=3.141592653589793,
     )
     for n, d in tz.DT.items():
@@ -184,8 +204,9 @@ def install(interp):
         Parameter=E("nn.Parameter"),
         UninitializedBuffer=E("nn.UninitializedBuffer"),
         UninitializedParameter=E("nn.UninitializedParameter"),
-        ModuleDict=E("nn.ModuleDict", bases=(models._NN_MODULE,)),
+        ModuleDict=CallableType("nn.ModuleDict", lambda init=None: models.ModuleDictV(init), bases=(models._NN_MODULE,)),
         ModuleList=E("nn.ModuleList", bases=(models._NN_MODULE,)),
+        ParameterList=CallableType("nn.ParameterList", lambda init=None: models.ParamListV(init), bases=(models._NN_MODULE,)),
     )
     f_gammaincc = z3.Function("gammaincc", z3.RealSort(), z3.RealSort(), z3.RealSort())
 
